@@ -245,3 +245,17 @@ def c05_6(ctx: Ctx) -> RuleResult:
         i.rule = "C05.6"
     r.rule, r.title = "C05.6", "the sort filter never ranks a failed realization: a NaN in any objective or constraint is propagated to the column its failure test reads"
     return r
+
+
+@rule(P)
+def c05_7(ctx: Ctx) -> RuleResult:
+    """Shared with C16.3."""
+    from .c16 import c16_3
+
+    r = c16_3(ctx)
+    r.instances = [i for i in r.instances if "realization_filter" in (i.where or "") or "realization_filter" in (i.func or "") or "realization_filter" in (i.construct or "")] or r.instances[:1]
+    r.floor = 1
+    for i in r.instances:
+        i.rule = "C05.7"
+    r.rule, r.title = "C05.7", "every evaluator gets filters built from its own configuration: the filter factory and plug-in objects keep no state between calls"
+    return r
